@@ -53,3 +53,35 @@ func GetAndUpdate(mu *sync.RWMutex, get GetFn, change ChangeFn, save SaveFn) (ol
 	save(newValue)
 	return oldValue, newValue, nil
 }
+
+// getAndUpdatePublish is GetAndUpdate for a resource that announces what it saves. publish runs after mu has been
+// released, so that readers are not held up while an event waits for a slow subscriber, and still in the order of
+// the saves: order is taken before mu and held until publish is done. Whoever needs a snapshot together with
+// "every event from now on" (a new subscriber) takes order as well. No lock is held during the change call.
+func getAndUpdatePublish(mu *sync.RWMutex, order sync.Locker, get GetFn, change ChangeFn, save SaveFn, publish func()) (oldValue proto.Message, newValue proto.Message, err error) {
+	mu.RLock()
+	oldValue, err = get()
+	mu.RUnlock()
+	if err != nil {
+		return nil, nil, err
+	}
+
+	newValue = proto.Clone(oldValue)
+	if newValue, err = change(oldValue, newValue); err != nil {
+		return oldValue, newValue, err
+	}
+
+	order.Lock()
+	defer order.Unlock()
+	mu.Lock()
+	oldValueAgain, _ := get()
+	if !proto.Equal(oldValue, oldValueAgain) {
+		mu.Unlock()
+		return oldValue, newValue, status.Errorf(codes.Aborted, "concurrent update detected")
+	}
+	save(newValue)
+	mu.Unlock()
+
+	publish()
+	return oldValue, newValue, nil
+}
